@@ -8,6 +8,7 @@ import (
 	"os"
 	"os/exec"
 	"path/filepath"
+	"regexp"
 	"runtime"
 	"runtime/pprof"
 	"sort"
@@ -97,6 +98,19 @@ func Main(property string, register func(r *Registry)) {
 func buildRegistry(tier string, register func(r *Registry)) *Registry {
 	r := &Registry{Tier: tier, Extra: map[string]any{}}
 	register(r)
+	// VERIF_ONLY=<regexp>: development aid (measuring single scenarios); the evidence then says so
+	// and the run is not exhaustive for the property
+	if re := os.Getenv("VERIF_ONLY"); re != "" {
+		rx := regexp.MustCompile(re)
+		var keep []*Scenario
+		for _, sc := range r.scenarios {
+			if rx.MatchString(sc.Name) {
+				keep = append(keep, sc)
+			}
+		}
+		r.scenarios = keep
+		r.Extra["filtered_by_VERIF_ONLY"] = re
+	}
 	return r
 }
 
@@ -710,7 +724,7 @@ func parentMain(property, tier string, register func(r *Registry)) int {
 		"nontrivial_executions":         tot.NonTrivial,
 		"sleep_set_pruned_executions":   tot.Pruned,
 		"max_depth":                     tot.MaxDepth,
-		"exhaustive":                    allComplete && capped == "",
+		"exhaustive":                    allComplete && capped == "" && os.Getenv("VERIF_ONLY") == "",
 		"rule":                          r.Rule,
 		"samples":                       sampleOut,
 		"scenarios":                     scList,
